@@ -21,6 +21,7 @@ import (
 	"github.com/tokenized/pkg/merchant_api"
 	"github.com/tokenized/pkg/merkle_proof"
 	"github.com/tokenized/pkg/wire"
+	"github.com/tokenized/spynode/internal/verifhook"
 	"github.com/tokenized/threads"
 
 	"github.com/pkg/errors"
@@ -1518,6 +1519,7 @@ func (c *RemoteClient) runConnection(ctx context.Context, conn net.Conn,
 	case handshakeCompleteChannel <- nil: // ensure sendMessages is not waiting on the handshake
 	default:
 	}
+	verifhook.At(ctx, "client.connection.beforeClose")
 	conn.Close()
 
 	wait.Wait()
